@@ -40,7 +40,7 @@ func (r *RAT[K, V]) Find(k K, predicate func(V) bool) (V, bool) {
 		}
 	}
 
-	for i := r.length - 1; i > idx; i-- {
+	for i := len(r.values[k]) - 1; i > idx; i-- {
 		v := r.values[k][i]
 		if predicate(v) {
 			return v, true
@@ -54,13 +54,19 @@ func (r *RAT[K, V]) Write(k K, value V) {
 	idx, exists := r.idx[k]
 	if !exists {
 		idx = 0
-		r.values[k] = make([]V, r.length)
+		r.values[k] = make([]V, 0, r.length)
 	} else {
 		idx = (idx + 1) % r.length
 	}
 
 	r.idx[k] = idx
-	r.values[k][idx] = value
+	// The ring grows until it is full so that a scan never sees a slot that
+	// was not written.
+	if idx < len(r.values[k]) {
+		r.values[k][idx] = value
+	} else {
+		r.values[k] = append(r.values[k], value)
+	}
 }
 
 func (r *RAT[K, V]) Values() map[K]V {
@@ -85,7 +91,7 @@ func (r *RAT[K, V]) FindValues(predicate func(V) bool) map[K]V {
 		if found {
 			continue
 		}
-		for i := r.length - 1; i > v; i-- {
+		for i := len(r.values[k]) - 1; i > v; i-- {
 			if predicate(r.values[k][i]) {
 				m[k] = r.values[k][i]
 				break
